@@ -12,6 +12,8 @@ THEOREMS = [
     "SC.kstep_stable_gen", "SC.frame_other_steps", "SC.commit_result", "SC.insert_commit_exact",
     # under the lock-discipline hypothesis the changesets are the sequential ones
     "SC.fresh_plan_eq", "SC.fresh_handlers_eq", "SC.final_state_exact",
+    # a compaction whose plan is fresh leaves exactly the merged live rows of the current snapshot
+    "SC.applyOps_dels_eq", "SC.compaction_commit_exact", "SC.compaction_fresh_exact",
     # what the code that exists does: refutation of the unconditional statement, by evaluation
     "SC.stale_snapshot_witness", "SC.delete_after_compaction_witness",
     "SC.final_state_exact_unconditional_false",
